@@ -503,6 +503,9 @@ def check_C14(h, rng, tier):
                {"k": "cmd", "c": c2, "msg": {"type": "bind", "appid": unhex(app), "side": unhex(side)}, "_id": "dup-bind"},
                {"k": "cmd", "c": c2, "msg": dup, "_id": "dup"},
                {"k": "disconnect", "c": c2, "_id": "dup-disconnect"}]
+        if rng.random() < 0.5:
+            # the re-sent command and whatever follows it arrive within one reactor turn
+            ins = [dict(e, same_turn=True) for e in ins]
         var = base[:i + 1] + ins + base[i + 1:]
         vr = run(cfg, var, seed, lines=True)
         variants.append((x, dup, c2, var, vr))
@@ -805,9 +808,11 @@ def check_C11(h, rng, tier):
             pre = o
             if o["exc"] is not None:
                 ok = False          # (an escaped exception leaves writes pending: known-finding territory)
-        if not ok or pre["chan"] != pre["chan_c"] or pre["usage"] != pre["usage_c"]:
+        if not ok:
             stats["skipped-pending-or-exception"] += 1
             continue
+        # (without an escaped exception nothing is pending between two events in the code as it is; a write that a
+        # change leaves uncommitted there is exactly what the rebuilt server does not get to see)
         live = sorted(r[0] for r in pre["conns"])
         tail = base[k + 1:] if kind == "restart" else base[k:]
         tail = explicit_sweeps(tail, pre["now"], period)
@@ -982,6 +987,8 @@ def check_C10(h, rng, tier, only=("claim", "release", "open", "close"), pid="C10
             ru = None
             crashed = {"k": "crash", "n": k, "e": {kk: v for kk, v in x.ev.items() if kk not in ("_id", "oracle")},
                        "oracle": x.ev.get("oracle"), "_id": i}
+            if rng.random() < 0.4:
+                crashed["after_stmt"] = rng.randrange(1, 4)     # between two statements after that commit
         if ru is not None:
             ou = ru.by_id.get("uncrashed")
             orc = ru.ev_by_id["uncrashed"].get("oracle") if ou is not None else None
@@ -1028,6 +1035,28 @@ def check_C10(h, rng, tier, only=("claim", "release", "open", "close"), pid="C10
                 what = ("crash inside %s after its commit %d, reconnect, re-send: the stored channel state differs from the uncrashed run"
                         % (x.mtype, k))
                 diff = {"part": "chan", "difference": describe_diff("chan", va, vb)}
+        if what is None and cfg.get("usage") and pid == "C10":
+            # the usage records (ResumeMore.v, *_resume_usage): those of the uncrashed run -- the restart's status row
+            # and the reconnecting client's version row aside -- except for KF5
+            js = lambda rows: Counter(json.dumps(r) for r in rows)
+            un_np, un_mb, re_np, re_mb = js(ou["usage"]["np"]), js(ou["usage"]["mb"]), js(oc["usage"]["np"]), js(oc["usage"]["mb"])
+            if (un_np, un_mb) != (re_np, re_mb):
+                own_np, own_mb = un_np - js(pre["usage"]["np"]), un_mb - js(pre["usage"]["mb"])    # written by the uncrashed command
+                extra_np, extra_mb = re_np - un_np, re_mb - un_mb
+                missing = (un_np - re_np) + (un_mb - re_mb)
+                def transient(e):
+                    e = json.loads(e)
+                    return x.mtype == "close" and k >= 3 and e[0] == app and e[1] is False and e[3] == 0 and e[4] is None
+                kf5 = (x.mtype in ("release", "close") and k >= 2 and not missing and (own_np or own_mb)
+                       and all(e in own_np and n <= own_np[e] for e, n in extra_np.items())
+                       and all((e in own_mb and n <= own_mb[e]) or (transient(e) and n == 1) for e, n in extra_mb.items()))
+                if kf5:
+                    stats["kf:5"] += 1
+                else:
+                    what = ("crash inside %s after its commit %d, reconnect, re-send: the usage records differ from the uncrashed run"
+                            % (x.mtype, k))
+                    diff = {"part": "usage", "only_in_uncrashed": sorted(missing.elements()),
+                            "only_in_resumed": sorted((extra_np + extra_mb).elements())}
         if what is not None:
             d = detail(pid, what, cfg, seed, un, cr, [], ["chan"], opts, diff,
                        extra={"base_is": "uncrashed", "variant_is": "crashed, reconnected, re-sent", "answer_ids": ["uncrashed", "resend"],
@@ -1142,7 +1171,7 @@ def check_C05(h, rng, tier):
 # ---------------------------------------------------------------------- registry / driver
 CHECKS = {
     # pid: (function, [(profile, histories in the quick tier)])
-    "C14": (check_C14, [("session", 160), ("crowd", 48), ("kf", 48), ("core", 64)]),
+    "C14": (check_C14, [("session", 160), ("crowd", 48), ("kf", 48), ("core", 64), ("pipeline", 32)]),
     "C11": (check_C11, [("restart", 240), ("sweep", 80), ("core", 80), ("reuse-after-prune", 32), ("stale-ns", 16)]),
     "C18": (check_C18, [("config", 120), ("session", 60), ("two-app", 60)]),
     "C10": (check_C10, [("crash", 160), ("session", 80), ("usage", 80), ("core", 80)]),
